@@ -4,6 +4,14 @@ import json, os
 HERE = os.path.dirname(os.path.dirname(os.path.abspath(__file__)))
 
 CHECKS = {
+ "C03": dict(
+  level="model_checking", ref="5 C03",
+  text="TLC explores TableAbs (a map with normalised keys, alternative float spellings of integer keys, borders, traversals whose body updates or "
+       "clears existing fields, __index/__newindex consultation) exhaustively over two key families and by simulation of 60-step histories over 13 keys; "
+       "each history is rendered as a Lua program on a real table (fresh seeded key values per instance) and checked against the model: every get, the "
+       "metamethod consultations, #t against the model's set of borders, visited-key sets of every traversal, final rawget of every spelling and final pairs",
+  note="bounded histories; traversal order and the choice of border are unspecified and not compared; the open-addressing layout itself is not modelled (keys are re-instantiated instead)",
+  technique="TLA+ spec TableAbs.tla, TLC BFS + simulation, generated programs replayed on real tables (direction A)"),
  "C07": dict(
   level="model_checking", ref="5 C05-C07",
   text="TLC explores the bounded Quota model (context stack, CallContext frames, panics; saturating 4-bit counters scaled to 64 bits, "
